@@ -1145,15 +1145,35 @@ impl Model {
                 self.pop_handle(t, op, *into)?;
                 self.threads[t as usize].stack.extend(above);
             }
-            Op::UnwindScope { slot } => {
+            Op::UnwindScope { slot, shape } => {
                 if is_inner {
                     return err("not inside a closure");
                 }
-                // = set_local_parent; enter a local span; both released (in order) by the unwinding
-                self.apply_op(op, t, &Op::SetLocalParent { slot: *slot }, &[], idx, true)?;
-                self.apply_op(op, t, &Op::LocalEnter { props: 0 }, &[], idx, true)?;
-                self.pop_handle(t, op, None)?;
-                self.pop_handle(t, op, None)?;
+                // composed from its parts; everything is released (in order) by the unwinding
+                match shape % 3 {
+                    0 => {
+                        self.apply_op(op, t, &Op::SetLocalParent { slot: *slot }, &[], idx, true)?;
+                        self.apply_op(op, t, &Op::LocalEnter { props: 0 }, &[], idx, true)?;
+                        self.pop_handle(t, op, None)?;
+                        self.pop_handle(t, op, None)?;
+                    }
+                    1 => {
+                        self.apply_op(op, t, &Op::SetLocalParent { slot: *slot }, &[], idx, true)?;
+                        self.apply_op(op, t, &Op::StartCollector, &[], idx, true)?;
+                        self.apply_op(op, t, &Op::LocalEnter { props: 0 }, &[], idx, true)?;
+                        self.pop_handle(t, op, None)?;
+                        // the collector is dropped without having been collected: its spans are gone
+                        self.pop_handle(t, op, None)?;
+                        self.pop_handle(t, op, None)?;
+                    }
+                    _ => {
+                        self.use_span(*slot, op)?;
+                        self.apply_op(op, t, &Op::LocalEnter { props: 0 }, &[], idx, true)?;
+                        self.apply_op(op + 1, t, &Op::LocalEnter { props: 0 }, &[], idx, true)?;
+                        self.pop_handle(t, op, None)?;
+                        self.pop_handle(t, op, None)?;
+                    }
+                }
             }
             Op::UserPanic { .. } => {}
             Op::BodyPanic => {
@@ -1388,8 +1408,8 @@ impl Model {
                 // enter_on_poll: one local span per poll, named like the task
                 let mut eop = false;
                 if let Some(p) = inner.iter().position(|o| matches!(o, Op::BodyPanic)) {
-                    if tk.wrap != Wrap::InSpanCatch || *ready || p + 1 != inner.len() {
-                        return err("a body may panic only as its last step, in a task that catches it, without completing");
+                    if *ready || p + 1 != inner.len() {
+                        return err("a body may panic only as its last step, without completing");
                     }
                 }
                 if matches!(tk.wrap, Wrap::EnterOnPoll | Wrap::InSpanEnterOnPoll | Wrap::InSpanCatch) {
